@@ -61,6 +61,7 @@ StrictStep ==
        [] a = "CcObject"    -> CcObject(p)
        [] a = "LinkBegin"   -> LinkBegin(p)
        [] a = "LinkEnd"     -> LinkEnd(p)
+       [] a = "CheckMarker" -> CheckMarker(p)
        [] a = "WriteMarker" -> WriteMarker(p)
        [] a = "LoadBuilder" -> LoadBuilder(p)
        [] a = "LoadWaiter"  -> LoadWaiter(p)
@@ -126,6 +127,7 @@ Judge ==
   /\ (Reuse \/ PrintT(<<"VIOL", tid, l, "Reuse">>))
   /\ (NoHang \/ PrintT(<<"VIOL", tid, l, "NoHang">>))
   /\ (FailureReleasesLock \/ PrintT(<<"VIOL", tid, l, "FailureReleasesLock">>))
+  /\ (UnfaultedNeverFails \/ PrintT(<<"VIOL", tid, l, "UnfaultedNeverFails">>))
   /\ (GlobalStateRestored \/ PrintT(<<"VIOL", tid, l, "GlobalStateRestored">>))
   /\ (ResultsCorrect \/ PrintT(<<"VIOL", tid, l, "ResultsCorrect">>))
 =============================================================================
